@@ -98,13 +98,13 @@ def run_bringup(ncp_v, path_kind="serial", second_reset=False, fault=None):
         try:
             if tag == "first":
                 await s.ez.startup_reset()
-            elif second_reset == "app":
+            elif second_reset in ("app", "app-quiet"):
                 # what ControllerApplication._reset() does; on a socket path on which the start-up reset is seen the NCP
                 # (zigbeed) restarts by itself during the start-up wait of this second round too
                 import types
                 import bellows.zigbee.application as A
                 from bellows.config import CONF_EZSP_CONFIG
-                if path_kind == "socket-seen":
+                if path_kind == "socket-seen" and second_reset == "app":
                     s.loop.call_later(0.3, lambda: (s.ncp.reset(0x0B), s.line.flush()))
                 # the library's own later reset: ControllerApplication._reset(self) on an object that holds this EZSP
                 await A.ControllerApplication._reset(types.SimpleNamespace(_ezsp=s.ez, config={CONF_EZSP_CONFIG: {}}))
@@ -194,6 +194,11 @@ class Check(PropertyCheck):
                     cases.append({"v": v, "path": path, "second": second, "fault": None})
                 # the later reset as the application performs it: stop_ezsp() + startup_reset() on the same EZSP object
                 cases.append({"v": v, "path": path, "second": "app", "fault": None})
+                # ... with an NCP that does NOT restart by itself this time: the host has to request the reset, whatever
+                # happened to the start-up reset of the first round (seen, late, duplicated)
+                cases.append({"v": v, "path": path, "second": "app-quiet", "fault": None})
+                if path in ("socket-seen", "socket-late") and v in (4, 8, 13, 14, 15):
+                    cases.append({"v": v, "path": path, "second": "app-quiet", "fault": ("n2h", 0, "dup")})
         # every single fault on the first frames of each direction (the reset handshake and the version exchange)
         for v in ((4, 13) if tier == "quick" else (4, 7, 8, 13, 14, 15)):
             for path in ("serial", "socket-seen", "socket-late", "socket-absent"):
@@ -326,7 +331,8 @@ class Check(PropertyCheck):
             cfg = ph.get("config")
             if cfg is not None and cfg != "ok" and not (case["fault"] is not None and "Timeout" in cfg):
                 return f"NCP v{v}: writing the default configuration failed: {cfg}"
-            if case["path"] in ("serial", "socket-absent") and ph["tag"] == "second" and not ph["rst_written"] and case["fault"] is None:
+            if ph["tag"] == "second" and not ph["rst_written"] and (case["second"] == "app-quiet" or (
+                    case["path"] in ("serial", "socket-absent") and case["fault"] is None)):
                 return f"NCP v{v} ({case['path']}): the later reset wrote no RST frame"
             if case["path"] in ("serial", "socket-absent", "socket-late") and ph["tag"] == "first" and not ph["rst_written"]:
                 return "no ASH reset request (RST) was written during bring-up"
